@@ -256,6 +256,54 @@ def run(ctx):
         except Exception as e:
             ctx.violation("renumbered mesh raised " + exc_kind(e), {"mesh": meshes.mesh_descr(m), "err": repr(e)},
                           {"what": "raise", "cls": type(m).__name__})
+        # meshes obtained from library operations AFTER the connectivity of the operand has been queried
+        # (the tables are cached lazily: a copy must not inherit tables that no longer fit its cells)
+        try:
+            nn = m.elem.refdom.nnodes
+            if m.t.shape[0] == nn and ctx.rng.random() < 0.6:
+                kind = info["kind"]
+                ops = ["translated", "with_subdomains", "restrict", "remove_elements"]
+                if kind in ("tri", "tet"):
+                    ops += ["oriented", "oriented"]
+                if kind not in ("wedge",):
+                    ops += ["refined", "mirrored"]
+                if kind not in ("wedge", "line"):
+                    ops += ["with_defaults"]       # MeshLine1 has no params(): default tags are not offered in 1-D
+                op = ctx.rng.choice(ops)
+                if op == "oriented":
+                    # hand the constructor a mesh with negatively oriented cells, query, then orient
+                    t2 = m.t.copy()
+                    flip = [k for k in range(t2.shape[1]) if ctx.rng.random() < 0.5]
+                    t2[[0, 1]] = np.where(np.isin(np.arange(t2.shape[1]), flip), t2[[1, 0]], t2[[0, 1]])
+                    mq = type(m)(m.p, t2, sort_t=False) if kind == "tri" else type(m)(m.p, t2)
+                    mq.facets, mq.t2f, mq.f2t, mq.boundary_nodes()
+                    if mq.dim() == 3:
+                        mq.edges, mq.t2e
+                    md = mq.oriented()
+                elif op == "translated":
+                    md = m.translated(tuple(0.5 for _ in range(m.dim())))
+                elif op == "with_subdomains":
+                    md = m.with_subdomains({"s": np.array([0], dtype=np.int32)})
+                elif op == "with_defaults":
+                    md = m.with_defaults()
+                elif op == "restrict":
+                    md = m.restrict(np.array(sorted(ctx.rng.sample(range(m.nelements),
+                                                                   ctx.rng.randint(1, m.nelements))), dtype=np.int32))
+                elif op == "remove_elements":
+                    md = m.remove_elements(np.array([ctx.rng.randrange(m.nelements)], dtype=np.int32)) \
+                        if m.nelements > 1 else m
+                elif op == "refined":
+                    md = m.refined(1) if m.nelements <= 16 else m
+                else:
+                    md = m.mirrored(tuple(1.0 if i == 0 else 0.0 for i in range(m.dim())))
+                ctx.count("derived:" + op)
+                for what, detail in oracle(md):
+                    ctx.violation(what + " (mesh derived by " + op + " after its operand's tables were queried)",
+                                  {"mesh": meshes.mesh_descr(m), "op": op, "derived": meshes.mesh_descr(md),
+                                   "detail": detail}, {"what": what, "cls": type(md).__name__, "op": op})
+        except Exception as e:
+            ctx.violation("derived mesh raised " + exc_kind(e), {"mesh": meshes.mesh_descr(m), "err": repr(e)},
+                          {"what": "raise-derived", "cls": type(m).__name__})
         try:
             for tag, req in model_requests(m):
                 pending.append((m, info, tag, req))
